@@ -256,6 +256,16 @@ func checkC12(c *Ctx) {
 					}
 					continue
 				}
+				if d.tc != nil && methOnRequired(d.tc) {
+					// a member function defined through a local that holds require(..): once a file does that, the answers
+					// about names reached through that variable come apart (known finding of the Modules.tla family; in
+					// Scope.tla programs it appears only in deep simulated ones and is attributed by this program-level test)
+					if surveyMode {
+						sv.add("DEV Dev_MemberDefinedThroughRequireUnreferenced (scope program)", desc)
+					}
+					c.Rep.Deviation("Dev_MemberDefinedThroughRequireUnreferenced", desc, jb.Raw)
+					continue
+				}
 				if surveyMode {
 					k := ""
 					if oc != nil && d.tc != nil {
@@ -378,6 +388,7 @@ func checkC12(c *Ctx) {
 	}
 	scAvoid = `{"hide","selfw","gshallow"}`
 	scLight = true
+	scShallowSims = true
 	scKinds = `{"local","local2","use","assign","assign2","do","while","if","repeat","fornum","forin","lfunc","lefunc","gfunc","meth","cfunc","iassign","guse","file","ret","require"}`
 	scCoreKinds = `{"local","use","assign","assign2","do","repeat","fornum","lfunc","lefunc","gfunc","ret"}`
 	c.Rep.Assumptions = append(c.Rep.Assumptions, "generated domain as in C06 (Scope.tla Avoid = {hide, selfw, gshallow})")
@@ -428,4 +439,21 @@ func checkC12(c *Ctx) {
 	if surveyMode {
 		sv.dump()
 	}
+}
+
+
+// methOnRequired: the program defines a member function on a local that holds require(..).
+func methOnRequired(tc *scCase) bool {
+	req := map[int]bool{}
+	for _, it := range tc.Items {
+		if it.K == "require" {
+			req[it.ID] = true
+		}
+	}
+	for _, it := range tc.Items {
+		if it.K == "meth" && it.Tb != 0 && req[it.Tb] {
+			return true
+		}
+	}
+	return false
 }
